@@ -41,6 +41,8 @@ type run struct {
 	Errors   string             `json:"errors,omitempty"`
 	Panic    string             `json:"panic,omitempty"`
 	Lines    []mlang.LineResult `json:"lines,omitempty"`
+	Fresh    []mlang.FreshPair  `json:"fresh,omitempty"`
+	FreshErr string             `json:"fresherr,omitempty"`
 }
 
 // timeIDs maps the instant ids of MtailLang!ParseTab to (layout index, value).
@@ -50,9 +52,10 @@ var timeIDs = map[string][2]string{
 	"mdY-1225": {"2", "12/25/1970"},
 	"dmY-2512": {"3", "25/12/1970"},
 	"rfc-a":    {"1", "1970-01-02T03:04:05Z"},
+	"y0-0304":  {"4", "03/04"},
 }
 
-var timeToks = []string{"03/04/1970", "25/12/1970", "12/25/1970", "1970-01-02T03:04:05Z"}
+var timeToks = []string{"03/04/1970", "25/12/1970", "12/25/1970", "1970-01-02T03:04:05Z", "03/04"}
 
 // checkParseTab verifies the model's strptime table against time.Parse: the
 // listed entries parse, every other (layout, value token) pair fails.
@@ -61,7 +64,7 @@ func checkParseTab() {
 	for _, lv := range timeIDs {
 		ok[lv] = true
 	}
-	for li := 1; li <= 3; li++ {
+	for li := 1; li <= 4; li++ {
 		for _, v := range timeToks {
 			_, err := time.Parse(mlang.Layouts[li-1], v)
 			key := [2]string{fmt.Sprint(li), v}
@@ -75,6 +78,7 @@ func checkParseTab() {
 func main() {
 	opt := flag.String("opt", "on", "on | both : also compile with the optimiser disabled")
 	modes := flag.String("modes", "full,min", "rendering modes")
+	fresh := flag.Bool("fresh", false, "also run every line on a freshly loaded copy holding the same metric values (C05)")
 	matchcheck := flag.Bool("matchcheck", true, "verify the model's pattern/line abstraction against Go regexp")
 	flag.Parse()
 	checkParseTab()
@@ -132,6 +136,13 @@ func main() {
 				if cc.Obj != nil && cc.Errors == "" && cc.Panic == "" {
 					r.Accepted = true
 					_, r.Lines = mlang.Run(name, cc.Obj, c.Lines, mlang.RunOpts{Loc: loc, CurrentYear: c.Year})
+					if *fresh && o && mode == "full" {
+						fp, ferr := mlang.RunFresh(name+"-A", src, c.Lines, mlang.RunOpts{Loc: loc, CurrentYear: c.Year})
+						r.Fresh = fp
+						if ferr != nil {
+							r.FreshErr = ferr.Error()
+						}
+					}
 				}
 				runs = append(runs, r)
 			}
@@ -150,6 +161,16 @@ func main() {
 				tm, err = time.Parse(mlang.Layouts[li-1], lv[1])
 			}
 			if err == nil {
+				if tm.Year() == 0 {
+					if !c.Year {
+						continue // not representable in nanoseconds; the model drops such cases
+					}
+					now := time.Now()
+					if loc != nil {
+						now = now.In(loc)
+					}
+					tm = tm.AddDate(now.Year(), 0, 0)
+				}
 				tt[id] = tm.UnixNano()
 			}
 		}
